@@ -2,7 +2,8 @@ import AkVerif.Model.ColorsConf
 /-!
 Model of `ak/color.py` for C14, continued: the module state `_GLOBAL_COLORS_CONF` / `_GSYNCED_PALETTES`
 (part 6: one configuration that may be the global one, synced palettes, nested re-syncs; part 7: several
-configurations taking turns as the global one).  The driver executes `stepM`.
+configurations taking turns as the global one; part 8: kept results of `get_palette()`).  The driver executes `stepK`
+(`stepM` through `KOp.m`).
 -/
 namespace ColorsConf
 open Ak
@@ -230,6 +231,51 @@ def runM (classes : List ClassDef) : MWorld → List MOp → Except Err MWorld
   | m, op :: ops =>
     match stepM classes m op with
     | .ok (m', _) => runM classes m' ops
+    | .error x => .error x
+
+/-! ## Part 8: results of `conf.get_palette()` that the caller keeps
+
+The caller holds on to palette objects obtained from configurations while the configurations go on changing and take
+turns as the global one.  `KWorld` adds these objects to the module state: for each the index of the configuration it
+was obtained from and its accessor attributes as built.  The driver executes `stepK`. -/
+
+structure KWorld where
+  m : MWorld
+  kept : List (Nat × Snap)
+
+inductive KOp where
+  | m (op : MOp)                 -- an operation of part 7
+  | gpal (i : Nat)               -- `conf_i.get_palette()`; the result is kept
+  | gread (n : Nat) (id : Id)    -- kept palette #n: its accessor attributes and `palette[id]`
+
+structure KReply where
+  snap : Option Snap
+  item : Option Str
+
+def stepK (classes : List ClassDef) (k : KWorld) : KOp → Except Err (KWorld × KReply)
+  | .m op =>
+    match stepM classes k.m op with
+    | .ok (m', s) => .ok ({ k with m := m' }, ⟨s, none⟩)
+    | .error x => .error x
+  | .gpal i =>
+    match k.m.confs[i]? with
+    | none => .error .keyError
+    | some c =>
+      let s := globalPaletteOf c
+      .ok ({ k with kept := k.kept ++ [(i, s)] }, ⟨some s, none⟩)
+  | .gread n id =>
+    match k.kept[n]? with
+    | none => .error .keyError
+    | some (i, s) =>
+      match keptItem k.m i id with
+      | none => .error .keyError
+      | some f => .ok (k, ⟨some s, some f⟩)
+
+def runK (classes : List ClassDef) : KWorld → List KOp → Except Err KWorld
+  | k, [] => .ok k
+  | k, op :: ops =>
+    match stepK classes k op with
+    | .ok (k', _) => runK classes k' ops
     | .error x => .error x
 
 /-- a whole case of the protocol: the constructor, then operations on the configuration and on the module
